@@ -12,10 +12,16 @@ Every function must have the shape   `T acc = INIT; for (V = LO; V </<= HI; ++V)
 accumulator `acc`, stride argument `i`) and written as Lean definitions over `rank`, `indices`, `extent`, `strides`;
 the hand-written loops in Model/C14.lean run exactly these pieces and the theorems in Props/C14.lean are about them.
 
-A function that no longer fits this grammar is *not* an alarm by itself (a harmless rewrite may do that): its last
-known translation is kept, a note goes to stderr, and the behavioural correspondence (harness vs. model) remains the tie.
+Harmless rewrites must not raise an alarm, real changes must:
+  * a function that no longer fits the grammar keeps the reference translation (note on stderr); the behavioural
+    correspondence (harness vs. model, harness oracle) remains the tie for it;
+  * a function that fits the grammar but reads differently from the reference is *evaluated* against the reference on a
+    few thousand sample inputs (all ranks 1..5, small extents/indices/strides): if it computes the same values the
+    reference text is emitted (marked `canonicalised`), otherwise the new text is emitted, the theorems are re-checked
+    against it (and normally fail) and the harness oracle supplies the failing input.
 """
 import os
+import random
 import re
 import sys
 
@@ -70,7 +76,8 @@ TOK = re.compile(r"(\d+)|([A-Za-z_][A-Za-z_0-9]*)|([-+*()\[\]])")
 
 
 class Expr:
-    """expression over + - * ( ) numbers, variables and extent(e) / indices[e] / strides[e]  ->  Lean term over Nat"""
+    """expression over + - * ( ) numbers, variables and extent(e) / indices[e] / strides[e]  ->  AST
+       ('num', n) | ('var', name) | ('app', array, arg) | ('bin', op, l, r)"""
 
     def __init__(self, text, env):
         self.text = canon(text)
@@ -106,7 +113,7 @@ class Expr:
         while self.peek() in ("+", "-"):
             op = self.eat()
             r = self.mul()
-            l = "(%s %s %s)" % (l, op, r)
+            l = ("bin", op, l, r)
         return l
 
     def mul(self):
@@ -114,7 +121,7 @@ class Expr:
         while self.peek() == "*":
             self.eat()
             r = self.prim()
-            l = "(%s * %s)" % (l, r)
+            l = ("bin", "*", l, r)
         return l
 
     def prim(self):
@@ -124,29 +131,49 @@ class Expr:
             self.eat(")")
             return r
         if t.isdigit():
-            return t
+            return ("num", int(t))
         if t in ("extent", "indices", "strides"):
             if t not in self.env:
                 raise TranslateError("%s is not available in this function: %r" % (t, self.text))
-            close = {"(": ")", "[": "]"}[self.eat()]
+            close = {"(": ")", "[": "]"}.get(self.eat())
+            if close is None:
+                raise TranslateError("expected ( or [ after %s in %r" % (t, self.text))
             r = self.add()
             self.eat(close)
-            return "(%s %s)" % (t, r)
+            return ("app", t, r)
         if t in self.env:
-            return self.env[t]
+            return ("var", self.env[t])
         raise TranslateError("unknown identifier %r in %r" % (t, self.text))
 
 
-def unparen(s):
-    if s.startswith("(") and s.endswith(")"):
-        depth = 0
-        for k, c in enumerate(s):
-            depth += c == "("
-            depth -= c == ")"
-            if depth == 0 and k < len(s) - 1:
-                return s
-        return s[1:-1]
-    return s
+def lean(a, top=True):
+    k = a[0]
+    if k == "num":
+        return str(a[1])
+    if k == "var":
+        return a[1]
+    if k == "app":
+        s = "%s %s" % (a[1], lean(a[2], False))
+    else:
+        s = "%s %s %s" % (lean(a[2], False), a[1], lean(a[3], False))
+    return s if top else "(" + s + ")"
+
+
+def ev(a, env):
+    """value over the naturals (truncated subtraction, like Lean's Nat)"""
+    k = a[0]
+    if k == "num":
+        return a[1]
+    if k == "var":
+        return env[a[1]]
+    if k == "app":
+        return env[a[1]](ev(a[2], env))
+    x, y = ev(a[2], env), ev(a[3], env)
+    if a[1] == "+":
+        return x + y
+    if a[1] == "*":
+        return x * y
+    return max(x - y, 0)
 
 
 FOR = re.compile(
@@ -154,7 +181,7 @@ FOR = re.compile(
 
 
 def loop_function(body, avail, what):
-    """body: `T acc = INIT; for (...) {...} return acc;`  -> dict(init, lo, hi, lets, step)"""
+    """body: `T acc = INIT; for (...) {...} return acc;`  -> dict(init, lo, hi, lets, step) of ASTs"""
     body = body.strip()
     mfor = FOR.search(body)
     if not mfor:
@@ -169,11 +196,11 @@ def loop_function(body, avail, what):
         raise TranslateError("%s: no accumulator declaration before the loop" % what)
     acc, init = decls[-1]
     env0 = dict(avail)
-    init_l = Expr(init, env0).parse()
-    lo_l = Expr(mfor.group(2), env0).parse()
-    hi_l = Expr(mfor.group(5), env0).parse()
+    init_a = Expr(init, env0).parse()
+    lo_a = Expr(mfor.group(2), env0).parse()
+    hi_a = Expr(mfor.group(5), env0).parse()
     if mfor.group(4) == "<=":
-        hi_l = "(%s + 1)" % hi_l
+        hi_a = ("bin", "+", hi_a, ("num", 1))
     # loop body
     post = post.strip()
     if post.startswith("{"):
@@ -201,35 +228,47 @@ def loop_function(body, avail, what):
         m = re.fullmatch(r"(?:const\s+)?[\w:]+\s+(\w+)\s*=\s*(.+)", st, flags=re.S)
         if m and m.group(1) != acc:
             name = "v_" + m.group(1)
-            lets.append((name, unparen(Expr(m.group(2), env).parse())))
+            lets.append((name, Expr(m.group(2), env).parse()))
             env[m.group(1)] = name
             continue
         m = re.fullmatch(r"(\w+)\s*(\*=|\+=|=)\s*(.+)", st, flags=re.S)
         if m and m.group(1) == acc and step is None:
             rhs = Expr(m.group(3), env).parse()
             if m.group(2) == "*=":
-                rhs = "(acc * %s)" % rhs
+                rhs = ("bin", "*", ("var", "acc"), rhs)
             elif m.group(2) == "+=":
-                rhs = "(acc + %s)" % rhs
-            step = unparen(rhs)
+                rhs = ("bin", "+", ("var", "acc"), rhs)
+            step = rhs
             continue
         raise TranslateError("%s: statement outside the grammar: %r" % (what, st))
     if step is None:
         raise TranslateError("%s: no update of the accumulator in the loop" % what)
-    return dict(init=unparen(init_l), lo=unparen(lo_l), hi=unparen(hi_l), lets=lets, step=step)
+    return dict(init=init_a, lo=lo_a, hi=hi_a, lets=lets, step=step)
+
+
+def run_loop(parts, env):
+    """value the translated function computes for the given inputs"""
+    e = dict(env)
+    acc = ev(parts["init"], e)
+    for r in range(ev(parts["lo"], e), ev(parts["hi"], e)):
+        e["r"], e["acc"] = r, acc
+        for (n, a) in parts["lets"]:
+            e[n] = ev(a, e)
+        acc = ev(parts["step"], e)
+    return acc
 
 
 def emit(name, params, parts, doc):
     """Lean text of one translated loop function"""
     ptxt = " ".join(params)
     out = ["/-- %s -/" % doc,
-           "def %s_init %s : Nat := %s" % (name, ptxt, parts["init"]),
-           "def %s_lo %s : Nat := %s" % (name, ptxt, parts["lo"]),
-           "def %s_hi %s : Nat := %s" % (name, ptxt, parts["hi"]),
+           "def %s_init %s : Nat := %s" % (name, ptxt, lean(parts["init"])),
+           "def %s_lo %s : Nat := %s" % (name, ptxt, lean(parts["lo"])),
+           "def %s_hi %s : Nat := %s" % (name, ptxt, lean(parts["hi"])),
            "def %s_step %s (r acc : Nat) : Nat :=" % (name, ptxt)]
-    for (n, e) in parts["lets"]:
-        out.append("  let %s := %s" % (n, e))
-    out.append("  " + parts["step"])
+    for (n, a) in parts["lets"]:
+        out.append("  let %s := %s" % (n, lean(a)))
+    out.append("  " + lean(parts["step"]))
     return "\n".join(out)
 
 
@@ -248,19 +287,22 @@ ENV_SIZE = {"rank": "rank", "extent": "extent", "strides": "strides"}
 
 def tr_offset(src, name, doc):
     _, body = body_after(src, r"operator\s*\(\)\s*\(\s*Indices\s*\.\.\.\s*\w+\s*\)\s*const\s*(?:noexcept)?\s*\{")
-    return emit(name, P_OFF, loop_function(body, ENV_OFF, doc), doc)
+    parts = loop_function(body, ENV_OFF, doc)
+    return parts, {}, emit(name, P_OFF, parts, doc)
 
 
 def tr_stride(src, name, doc):
     m, body = body_after(src, r"\bstride\s*\(\s*rank_type\s+(\w+)\s*\)\s*const\s*(?:noexcept)?\s*\{")
     env = dict(ENV_PROD)
     env[m.group(1)] = "i"
-    return emit(name, P_STR, loop_function(body, env, doc), doc)
+    parts = loop_function(body, env, doc)
+    return parts, {}, emit(name, P_STR, parts, doc)
 
 
 def tr_product(src, name, doc):
     _, body = body_after(src, r"\bproduct\s*\(\s*\)\s*const\s*(?:noexcept)?\s*\{")
-    return emit(name, P_PROD, loop_function(body, ENV_PROD, doc), doc)
+    parts = loop_function(body, ENV_PROD, doc)
+    return parts, {}, emit(name, P_PROD, parts, doc)
 
 
 def tr_size(src, name, doc):
@@ -275,10 +317,11 @@ def tr_size(src, name, doc):
     rest = re.sub(r"\b%s\.extent\(" % re.escape(ext), "extent(", rest)
     rest = re.sub(r"\b%s\[" % re.escape(strd), "strides[", rest)
     parts = loop_function(rest, ENV_SIZE, doc)
+    consts = {"rank0": int(m0.group(1)), "empty": int(m1.group(1))}
     txt = ["/-- %s: value for rank 0 -/" % doc, "def %s_rank0 : Nat := %s" % (name, m0.group(1)),
            "/-- %s: value when the product of the extents is 0 -/" % doc, "def %s_empty : Nat := %s" % (name, m1.group(1)),
            emit(name, P_SIZE, parts, doc)]
-    return "\n".join(txt)
+    return parts, consts, "\n".join(txt)
 
 
 FUNCS = [
@@ -290,38 +333,124 @@ FUNCS = [
     ("stride_size", "dune/common/std/layout_stride.hh", tr_size, "layout_stride::mapping::size(extents,strides)"),
 ]
 
+# The reference: the functions as they read when the theorems were written.
+REFERENCE = {
+    "left": """
+  constexpr index_type operator() (Indices... ii) const noexcept
+  {
+    const std::array indices{index_type(std::move(ii))...};
+    index_type value = indices.back();
+    for (rank_type r = 1; r < extents_type::rank(); ++r) {
+      const rank_type j = extents_type::rank()-r;
+      value = indices[j-1] + extents_.extent(j-1) * value;
+    }
+    return value;
+  }""",
+    "left_stride": """
+  constexpr index_type stride (rank_type i) const noexcept
+  {
+    assert(i < extents_type::rank());
+    index_type prod = 1;
+    for (rank_type r = 0; r < i; ++r)
+      prod *= extents().extent(r);
+    return prod;
+  }""",
+    "right": """
+  constexpr index_type operator() (Indices... ii) const noexcept
+  {
+    const std::array indices{index_type(std::move(ii))...};
+    index_type value = indices.front();
+    for (rank_type j = 0; j < extents_type::rank()-1; ++j) {
+      value = indices[j+1] + extents_.extent(j+1) * value;
+    }
+    return value;
+  }""",
+    "right_stride": """
+  constexpr index_type stride (rank_type i) const noexcept
+  {
+    assert(i < extents_type::rank());
+    index_type prod = 1;
+    for (rank_type r = i+1; r < extents_type::rank(); ++r)
+      prod *= extents().extent(r);
+    return prod;
+  }""",
+    "product": """
+  constexpr size_type product () const noexcept
+  {
+    size_type prod = 1;
+    for (rank_type i = 0; i < rank(); ++i)
+      prod *= extent(i);
+    return prod;
+  }""",
+    "stride_size": """
+  static constexpr index_type size (const E& extents, const S& strides) noexcept
+  {
+    if constexpr (E::rank() == 0)
+      return 1;
+    else {
+      if (extents.product() == 0)
+        return 0;
+      else {
+        index_type result = 1;
+        for (rank_type r = 0; r < E::rank(); ++r)
+          result += (extents.extent(r)-1) * strides[r];
+        return result;
+      }
+    }
+  }""",
+}
+
 GEN = "DuneVerif/Gen/C14.lean"
-HEADER = "-- GENERATED by tools/translators/tr_c14.py from dune/common/std/{layout_left,layout_right,layout_stride,extents}.hh -- do not edit\n"
+HEADER = ("-- GENERATED by tools/translators/tr_c14.py from dune/common/std/{layout_left,layout_right,layout_stride,extents}.hh"
+          " -- do not edit\n")
 
 
-def previous_blocks():
-    """blocks of the committed Gen file, keyed by function name (fallback for functions outside the grammar)"""
-    here = os.path.dirname(os.path.dirname(os.path.dirname(os.path.abspath(__file__))))
-    p = os.path.join(here, "lean", GEN)
-    if not os.path.exists(p):
-        return {}
-    txt = open(p).read()
-    res = {}
-    for m in re.finditer(r"-- BEGIN (\w+)[^\n]*\n(.*?)\n-- END \1", txt, flags=re.S):
-        res[m.group(1)] = m.group(2)
-    return res
+def same_function(name, new, ref, samples=3000):
+    """do the two translations compute the same values?  (ranks 1..5, small extents >= 1, valid indices, any strides)"""
+    pn, cn, _ = new
+    pr, cr, _ = ref
+    if cn != cr:
+        return False
+    rng = random.Random(14)
+    for _ in range(samples):
+        rank = rng.randint(1, 5)
+        E = [rng.randint(1, 5) for _ in range(rank)]
+        I = [rng.randint(0, e - 1) for e in E]
+        S = [rng.randint(0, 9) for _ in range(rank)]
+        env = {"rank": rank, "i": rng.randint(0, rank - 1),
+               "extent": (lambda k, E=E: E[k] if 0 <= k < len(E) else 0),
+               "indices": (lambda k, I=I: I[k] if 0 <= k < len(I) else 0),
+               "strides": (lambda k, S=S: S[k] if 0 <= k < len(S) else 0)}
+        try:
+            if run_loop(pn, env) != run_loop(pr, env):
+                return False
+        except Exception:
+            return False
+    return True
 
 
 def translate(repo):
-    prev = previous_blocks()
     out = [HEADER + "set_option linter.unusedVariables false\nnamespace DV.C14.Gen"]
     for (name, path, fn, doc) in FUNCS:
+        ref = fn(strip_comments(REFERENCE[name]), name, doc)
+        tag = ""
         try:
             src = strip_comments(open(os.path.join(repo, path)).read())
-            block = fn(src, name, doc)
-            tag = ""
+            new = fn(src, name, doc)
+            if new[2] == ref[2]:
+                block = new[2]
+            elif same_function(name, new, ref):
+                block = ref[2]
+                tag = " (canonicalised: the source reads differently but computes the reference values on all samples)"
+            else:
+                block = new[2]
+                tag = " (differs from the reference)"
+                sys.stderr.write("tr_c14: %s computes different values than the reference translation\n" % doc)
         except (TranslateError, OSError) as ex:
-            if name not in prev:
-                raise TranslateError("%s cannot be translated and no earlier translation exists: %s" % (doc, ex))
-            sys.stderr.write("tr_c14: %s is outside the translator's grammar (%s); keeping the last translation, "
+            sys.stderr.write("tr_c14: %s is outside the translator's grammar (%s); keeping the reference translation, "
                              "the differential run remains the tie\n" % (doc, str(ex)[:200]))
-            block = prev[name]
-            tag = " (kept: source outside grammar)"
+            block = ref[2]
+            tag = " (kept: source outside the translator's grammar)"
         out.append("-- BEGIN %s%s\n%s\n-- END %s" % (name, tag, block, name))
     out.append("end DV.C14.Gen")
     return [(GEN, "\n\n".join(out) + "\n")]
